@@ -299,6 +299,7 @@ func checkC17(c *Ctx, r *Report) {
 	c17Depr(c, r)
 	c17Null(c, r)
 	c17Roots(c, r)
+	importRules(c, r, "C14", "C17.TABLES", "the tables __schema.types and __schema.directives are read from are never shared with a table that a rejected load wrote into (C14.W3)", "C14.W3")
 }
 
 // c17Roots: the root operation types introspection reports are those of the declared schema block;
